@@ -54,6 +54,16 @@ def run(ctx):
         add_seq(st, jumpprogs, interleave=False); add_seq(st, longprogs + symprogs[:4], interleave=False)
         add_seq(st, [x for pair in zip(symprogs, longprogs, callprogs) for x in pair], interleave=True)
         add_seq(st, callprogs + jumpprogs[:4] + symprogs[:5], interleave=False)
+    # a program whose run FAILS half-way through a conversion (a partial application inside a pair cannot be rendered as text or
+    # bytes, after part of the output was produced), run before the next program is built: what the failed run leaves in the
+    # object must not reach the constants or the results of the programs built afterwards
+    failers = ['(5 = ({ $ } ~ 1)) ~# ""', "(5 = ({ $ } ~ 1)) ~# ''", '(1, 2, ({ $ + 1 } ~ 2)) ~# ""', '("ab" = ({ $ } ~ 1)) ~# ""']
+    texty = ['"abc" <> "def"', '"abc"', "'xy' <> 'z'", '"q" ~# \'\'', '7 ~# ""', '(:k = "v") . :k', "'ab'"]
+    for f_ in failers:
+        for t_ in texty:
+            for st in progsuite.STORES:
+                # the failing program comes first: a rendered expression shows its jump-table index, which depends on what was built before
+                add_seq(st, [f_, t_], interleave=True); add_seq(st, [f_, t_, t_ + ' '], interleave=True)
     for _ in range(400 if ctx.tier == 'quick' else 6000):
         k = rnd.randint(2, 4)
         add_seq(rnd.choice(progsuite.STORES), [rnd.choice(pool + fixed) for _ in range(k)], interleave=rnd.random() < 0.6)
